@@ -28,3 +28,19 @@ declare_fields('GlobalLabelScope', _register_labels='set[str]')
 declare_fields('PackedBits', _bytes='bytearray', _cur_byte_idx='int', _cur_bit_idx='int')
 declare_fields('AssembledInstruction', _parts='list[ByteCodePart]', _line_id='LineIdentifier', _byte_size='int')
 declare_fields('CompositeAssembledInstruction', _instructions='list[AssembledInstruction]')
+
+# ---- line objects -------------------------------------------------------------------------------------
+declare_fields('LineObject', _line_id='LineIdentifier', _instruction='str', _comment='str', _address='int?',
+               _label_scope='LabelScope?', _memzone='MemoryZone', _compilable='bool', _is_muted='bool')
+declare_fields('LineWithBytes', _bytes='bytearray')
+declare_fields('LabelLine', _label='str', _value='int?')
+declare_fields('SetMemoryZoneLine', _memzone_manager='MemoryZoneManager', _name='str')
+declare_fields('AddressOrgLine', _parsed_memzone_name='str?', _address_expr='ExpressionNode')
+declare_fields('PageAlignLine', _page_size='union[ExpressionNode]')
+declare_fields('FillDataLine', _count_expr='ExpressionNode', _value_expr='ExpressionNode', _count='int?', _value='int?')
+declare_fields('FillUntilDataLine', _fill_until_addr_expr='ExpressionNode', _fill_value_expr='ExpressionNode',
+               _fill_until_addr='int?', _fill_value='int?')
+declare_fields('PredefinedDataLine', _byte_length='int', _byte_value='int')
+declare_fields('EmbeddedString', _string_bytes='list[int]')
+declare_fields('DataLine', _arg_value_list='list[union]', _directive='str', _endian='str')
+declare_fields('InstructionLine', _assembled_instruction='AssembledInstruction')
